@@ -914,6 +914,30 @@ def check_npz_reader(ctx: Context, rep, rule: str) -> None:
         rep.ob(rule, ok, loc=fn.loc(), where=fn.qualname,
                construct=short(yv, 80) if yv is not None else "<none>",
                message="example i = {name: array[i]} for i in range(length)")
+    # ... in the dtype NumPy stored: the reader never converts (the writer
+    # saved the values it was given, a cast to the declared dtype on the way
+    # back changes those the declared dtype cannot represent)
+    ci = ctx.repo.cls("sedpack.io.npz.iterate_npz:IterateShardNP")
+    n_calls = 0
+    for m in ci.methods.values():
+        for c in m.calls():
+            n_calls += 1
+            f = c.func
+            nm = f.attr if isinstance(f, ast.Attribute) else (
+                f.id if isinstance(f, ast.Name) else "")
+            typed = any(k.arg in ("dtype", "casting") for k in c.keywords) or \
+                nm in ("astype", "view", "frombuffer", "fromiter", "round",
+                       "around", "rint", "clip", "nan_to_num") or (
+                           nm in ("array", "asarray", "asanyarray") and
+                           len(c.args) > 1)
+            if typed:
+                rep.ob(rule, False, loc=m.loc(c), where=m.qualname,
+                       construct=short(c, 80),
+                       message="the npz reader converts the stored values")
+    rep.ob(rule, n_calls >= 4, loc=ci.methods["iterate_shard"].loc(),
+           where=ci.name, construct=f"{n_calls} call(s) in the reader class; "
+           "none converts values",
+           message="the stored arrays are handed out as loaded")
 
 
 def run(ctx: Context, rep) -> None:
@@ -939,6 +963,11 @@ def run(ctx: Context, rep) -> None:
     check_npz_save(ctx, rep, "C01.npz-save")
     check_npz_reader(ctx, rep, "C01.npz-reader")
     check_npz_bytes(ctx, rep, "C01.npz-bytes")
+    # the native reader's decoder hands out a dictionary of its own per
+    # example (same structural check as C15.decode): a value stored for one
+    # example is not overwritten by the next
+    from sa.rules import shared as _sh01d
+    _sh01d.share_rules(ctx, rep, "c15", {"C15.decode": "C01.rust-decode"})
     # what an accepted example stores depends on that example only: a writer
     # keeps no per-example state on `self` that a previous (rejected) write
     # could have left behind (same analysis as C18.state)
